@@ -426,6 +426,9 @@ func c08KeyLimits(c *engine.Ctx, kinds []drv.Kind) {
 			if !k.IsFs() {
 				cases = append(cases, kc{k, via, "utf8-1024-bytes-512-chars", strings.Repeat("é", 512), false})
 			}
+			// a key within the 1024 bytes that a file system may still be unable to hold (a
+			// segment longer than a file name), below directories that do not exist yet
+			cases = append(cases, kc{k, via, "new-dirs+300-byte-segment", "newdir/sub/" + strings.Repeat("s", 300), false})
 		}
 	}
 	engine.ParallelFor(len(cases), func(_, i int) {
@@ -471,6 +474,13 @@ func c08KeyLimits(c *engine.Ctx, kinds []drv.Kind) {
 				return
 			}
 			c.Distinct(hist[0])
+			return
+		}
+		if r.Status >= 300 && strings.HasPrefix(cs.name, "new-dirs") {
+			// the backend may be unable to store it; then nothing may be left behind
+			if after := c08Snap(w); after != before {
+				report("state-changed", "the refused upload ("+r.Short()+") changed the stored state:\nbefore:\n"+before+"\nafter:\n"+after)
+			}
 			return
 		}
 		if r.Status >= 300 {
